@@ -22,14 +22,15 @@ def data(origins):
 
 
 def rec_field(o, *path):
-    """origin is the closure's record parameter (param 2) with the given path suffix"""
-    return o.kind == "param" and o.key == 2 and tuple(o.path[-len(path):]) == tuple(path)
+    """origin is the record parameter (param 2 of the mapping closure, param 1 of a `From<&SpanRecord>`-style constructor) with
+    the given path suffix"""
+    return o.kind == "param" and o.key in (1, 2) and tuple(o.path[-len(path):]) == tuple(path)
 
 
 def rec_has(o, *path):
     """origin is the closure's record parameter (param 2) and its path contains `path` as consecutive elements (the value may be
     a component of that field: `.properties.0`)"""
-    if not (o.kind == "param" and o.key == 2):
+    if not (o.kind == "param" and o.key in (1, 2)):
         return False
     p, n = tuple(o.path), len(path)
     return any(p[i:i + n] == tuple(path) for i in range(len(p) - n + 1))
@@ -42,7 +43,8 @@ def binops(o):
 def expect_field(ctx, rule, fn, b, struct, field, origins, want_path, ops_required=(), ops_forbidden=("any",), extra_ok=lambda o: False):
     """Every data origin of the operand is the record field `want_path`, met with the required arithmetic."""
     src = data(origins)
-    recs = [o for o in src if o.kind == "param" and o.key == 2]
+    rk = 2 if fn.kind == "Closure" else 1      # the record: the mapping closure's parameter, or a constructor's first parameter
+    recs = [o for o in src if o.kind == "param" and o.key == rk]
     good = bool(recs) and all(rec_field(o, *want_path) for o in recs)
     arith_ok = True
     for o in recs:
@@ -52,7 +54,7 @@ def expect_field(ctx, rule, fn, b, struct, field, origins, want_path, ops_requir
                 arith_ok = False
         if ops_forbidden == ("any",) and not ops_required and [x for x in ops if x[0] not in ()]:
             arith_ok = False
-    other = [o for o in src if not (o.kind == "param" and o.key == 2) and o.kind in ("param", "upvar") and not extra_ok(o)]
+    other = [o for o in src if not (o.kind == "param" and o.key == rk) and o.kind in ("param", "upvar") and not extra_ok(o)]
     ctx.check(good and arith_ok and not other, rule, fn.path, fn.loc(b),
               "%s.%s <- record.%s%s" % (struct, field, "".join(want_path).lstrip("."),
                                         (" with " + ", ".join("%s %s" % x for x in ops_required)) if ops_required else " (no arithmetic)"),
@@ -64,7 +66,7 @@ def expect_field(ctx, rule, fn, b, struct, field, origins, want_path, ops_requir
 
 def jaeger(ctx, facts, rule_f, rule_w):
     prov = Prov(facts)
-    cons = [c for c in constructions(facts, "fastrace_jaeger::thrift::JaegerSpan", crates=["fastrace_jaeger"]) if "convert" in c[0].path]
+    cons = [c for c in constructions(facts, "fastrace_jaeger::thrift::JaegerSpan", crates=["fastrace_jaeger"]) if "convert" in c[0].path or re.search(r"From<&?fastrace::collector::(SpanRecord|EventRecord)|From<&\(|::from_record$", c[0].path)]
     if not ctx.floor(rule_f, "fastrace_jaeger::thrift::JaegerSpan", len(cons), 1, "constructions of JaegerSpan in convert"):
         return
     fn, b, s, f = cons[0]
@@ -72,7 +74,7 @@ def jaeger(ctx, facts, rule_f, rule_w):
     S = "JaegerSpan"
     expect_field(ctx, rule_f, fn, b, S, "trace_id_low", o["trace_id_low"], (".trace_id", ".0"))
     # high half: shifted right by 64 (or divided by 2^64)
-    hi = [x for x in data(o["trace_id_high"]) if x.kind == "param" and x.key == 2]
+    hi = [x for x in data(o["trace_id_high"]) if x.kind == "param" and x.key in (1, 2) and x.path]
     ok_hi = bool(hi) and all(rec_field(x, ".trace_id", ".0") and (("Shr", 64) in binops(x) or ("Div", 1 << 64) in binops(x)) for x in hi)
     ctx.check(ok_hi, rule_f, fn.path, fn.loc(b), "JaegerSpan.trace_id_high <- record.trace_id.0 >> 64", "%s" % [(x.short(), binops(x)) for x in hi],
               "%s" % [(x.short(), binops(x)) for x in data(o["trace_id_high"])], extra="JaegerSpan.trace_id_high")
@@ -82,21 +84,21 @@ def jaeger(ctx, facts, rule_f, rule_w):
     expect_field(ctx, rule_f, fn, b, S, "start_time", o["start_time"], (".begin_time_unix_ns",), ops_required=(("Div", 1000),))
     expect_field(ctx, rule_f, fn, b, S, "duration", o["duration"], (".duration_ns",), ops_required=(("Div", 1000),))
     # tags / logs: through the nested closures
-    tags = [c for c in constructions(facts, "fastrace_jaeger::thrift::Tag", "String", crates=["fastrace_jaeger"]) if "convert" in c[0].path]
-    ctx.floor(rule_f, "fastrace_jaeger::thrift::Tag", len(tags), 2, "Tag::String constructions (span tags, log fields)")
+    tags = [c for c in constructions(facts, "fastrace_jaeger::thrift::Tag", "String", crates=["fastrace_jaeger"]) if "convert" in c[0].path or re.search(r"From<&?fastrace::collector::(SpanRecord|EventRecord)|From<&\(|::from_record$", c[0].path)]
+    ctx.floor(rule_f, "fastrace_jaeger::thrift::Tag", len(tags), 1, "Tag::String constructions (span tags, log fields)")
     for g, bb, ss, ff in tags:
         k = data(prov.of_operand(g, ff["key"]))
         v = data(prov.of_operand(g, ff["value"]))
-        okk = bool(k) and all(x.kind == "param" and x.key == 2 and x.path[-1:] == (".0",) for x in k)
-        okv = bool(v) and all(x.kind == "param" and x.key == 2 and x.path[-1:] == (".1",) for x in v)
+        okk = bool(k) and all(x.kind == "param" and x.key in (1, 2) and x.path[-1:] == (".0",) for x in k)
+        okv = bool(v) and all(x.kind == "param" and x.key in (1, 2) and x.path[-1:] == (".1",) for x in v)
         # the event's own name is written as the tag ("name", event.name) -- built from a pair or directly
         name_tag = bool(k) and all(x.kind == "const" and str(x.key) == '"name"' for x in k) and bool(v) and all(rec_field(x, ".name") for x in v)
         ctx.check((okk and okv) or name_tag, rule_f, g.path, g.loc(bb), "Tag::String{key <- pair.0, value <- pair.1} (or the event-name tag (\"name\", event.name))", "",
                   "key %s value %s" % (origin_strs(k), origin_strs(v)), extra="Tag.kv")
     tsrc = data(o["tags"])
-    ctx.check(bool(tsrc) and all(rec_field(x, ".properties", ".0") or rec_field(x, ".properties", ".1") for x in tsrc if x.kind == "param"),
+    ctx.check(bool(tsrc) and any(x.kind == "param" for x in tsrc) and all(rec_has(x, ".properties") for x in tsrc if x.kind == "param"),
               rule_f, fn.path, fn.loc(b), "JaegerSpan.tags <- record.properties", "", "%s" % origin_strs(tsrc), extra="JaegerSpan.tags")
-    logs = [c for c in constructions(facts, "fastrace_jaeger::thrift::Log", crates=["fastrace_jaeger"]) if "convert" in c[0].path]
+    logs = [c for c in constructions(facts, "fastrace_jaeger::thrift::Log", crates=["fastrace_jaeger"]) if "convert" in c[0].path or re.search(r"From<&?fastrace::collector::(SpanRecord|EventRecord)|From<&\(|::from_record$", c[0].path)]
     if ctx.floor(rule_f, "fastrace_jaeger::thrift::Log", len(logs), 1, "Log constructions"):
         g, bb, ss, ff = logs[0]
         expect_field(ctx, rule_f, g, bb, "Log", "timestamp", prov.of_operand(g, ff["timestamp"]), (".timestamp_unix_ns",), ops_required=(("Div", 1000),))
@@ -105,7 +107,8 @@ def jaeger(ctx, facts, rule_f, rule_w):
             any(rec_has(x, ".properties") for x in fs)
         ctx.check(okf, rule_f, g.path, g.loc(bb), "Log.fields <- (\"name\", event.name) followed by event.properties", "", "%s" % origin_strs(fs), extra="Log.fields")
     lsrc = data(o["logs"])
-    ctx.check(any(rec_field(x, ".events", ".name") for x in lsrc) and any(rec_has(x, ".events", ".properties") for x in lsrc), rule_f, fn.path, fn.loc(b),
+    # (what a Log is made of is checked at the Log construction, wherever it lives)
+    ctx.check(any(rec_has(x, ".events") for x in lsrc) and not any(x.kind == "param" and x.path and not rec_has(x, ".events") for x in lsrc), rule_f, fn.path, fn.loc(b),
               "JaegerSpan.logs <- record.events", "", "%s" % origin_strs(lsrc), extra="JaegerSpan.logs")
     # ---- wire table
     conv = [g for p, g in facts.fns.items() if g.crate == "fastrace_jaeger" and "From<fastrace_jaeger::thrift::JaegerSpan>" in p and p.endswith("::from")]
@@ -207,7 +210,7 @@ def jaeger(ctx, facts, rule_f, rule_w):
 
 def datadog(ctx, facts, rule_f, rule_w):
     prov = Prov(facts)
-    cons = [c for c in constructions(facts, "fastrace_datadog::DatadogSpan", crates=["fastrace_datadog"]) if "convert" in c[0].path]
+    cons = [c for c in constructions(facts, "fastrace_datadog::DatadogSpan", crates=["fastrace_datadog"]) if "convert" in c[0].path or c[0].path.endswith("::from_record")]
     if not ctx.floor(rule_f, "fastrace_datadog::DatadogSpan", len(cons), 1, "constructions of DatadogSpan in convert"):
         return
     fn, b, s, f = cons[0]
@@ -408,6 +411,11 @@ def once_each(ctx, facts, rule):
                       "a path returns at bb%s without try_report" % wit, extra="report")
             cs = tr.calls(lambda t: t["callee"] == conv.path)
             ss = tr.calls_re(sendrx, cleanup=False)
+            if not ss and name == "OpenTelemetryReporter":
+                # the private object-safe exporter trait may be named differently: the send is the call on self.exporter
+                ss = [b for b in tr.calls() if not tr.blocks[b]["cleanup"] and tr.term(b)["args"] and
+                      any(x.kind == "param" and x.key == 1 and ".exporter" in x.path for x in prov.of_operand(tr, tr.term(b)["args"][0]))
+                      and not re.search(r"Deref(Mut)?>?::deref(_mut)?$|as_(ref|mut)$", tr.term(b)["callee"])]
             okc = bool(cs) and bool(ss) and all(any(tr.dominates(c, s) for c in cs) for s in ss)
             full = bool(cs) and all(has_origin(prov.of_operand(tr, tr.term(c)["args"][1]), kind="param", key=2) for c in cs)
             ctx.check(okc and full, rule, tr.path, tr.span, "try_report converts the batch it was given and then sends it (convert dominates the send)", "",
